@@ -65,7 +65,9 @@ def piece_may_contain(piece, ch):
 
 
 class XStr(Sym):
-    __slots__ = ('segs',)
+    # alts: [(guard, str)] when the string is known to be exactly one of finitely many literals
+    # (pairwise exclusive guards, one of them true) -- kept by merge / concat, used for lookups
+    __slots__ = ('segs', 'alts')
 
     def __init__(self, segs):
         out = []
@@ -86,6 +88,7 @@ class XStr(Sym):
             else:
                 out.append((g, p))
         self.segs = out
+        self.alts = None
 
     # -- construction ---------------------------------------------------------------------------
     @staticmethod
@@ -196,7 +199,26 @@ class XStr(Sym):
         return XStr(segs).simplify()
 
     # -- Python-level operations ----------------------------------------------------------------
+    def _map_alts(self, it, f):
+        """Apply a total-or-raising str -> str function to each alternative."""
+        from .interp import PyRaise
+        out = []
+        for g, t in self.alts:
+            try:
+                out.append((g, f(t)))
+            except Exception as e:
+                if it.ctx.decide(g if isinstance(g, (bool, SBool)) else mk_bool(g)):
+                    raise PyRaise(type(e), e.args)
+        if not out:
+            raise EngineError('no alternative left')
+        r = out[-1][1]
+        for g, t in reversed(out[:-1]):
+            r = str_merge(BT(g), t, r)
+        return r
+
     def getitem(self, it, idx):
+        if self.alts is not None and isinstance(idx, int):
+            return self._map_alts(it, lambda t: t[idx])
         if isinstance(idx, int) and idx >= 0:
             # the idx-th character is determined only if everything before it is unconditional
             k = idx
@@ -209,6 +231,8 @@ class XStr(Sym):
         raise Undetermined(f'{self!r}[{idx!r}]')
 
     def getslice(self, it, lo, hi, st):
+        if self.alts is not None and all(x is None or isinstance(x, int) for x in (lo, hi, st)):
+            return self._map_alts(it, lambda t: t[slice(lo, hi, st)])
         # s[lo:] with lo inside the unconditional literal prefix
         if st is None and hi is None and isinstance(lo, int) and lo >= 0 and self.segs:
             g, p = self.segs[0]
@@ -217,7 +241,17 @@ class XStr(Sym):
         raise Undetermined(f'slice {lo}:{hi} of {self!r}')
 
     def enum_lookup(self, it, cls):
-        raise Undetermined(f'{cls.__name__}[{self!r}]')
+        from .interp import PyRaise
+        if self.alts is None:
+            raise Undetermined(f'{cls.__name__}[{self!r}]')
+        bad = b_or(*[g for g, t in self.alts if t not in cls.__members__])
+        if it.ctx.decide(bad):
+            raise PyRaise(KeyError, ('<name>',))
+        good = [(g, cls[t]) for g, t in self.alts if t in cls.__members__]
+        acc = good[-1][1]
+        for g, m in reversed(good[:-1]):
+            acc = V.merge(BT(g), m, acc)
+        return acc
 
     def method(self, it, name, args, kwargs):
         from .interp import PyRaise
@@ -267,15 +301,61 @@ def _sanitize(atom, s):
 # functions used by the interpreter
 
 
+def _alts_of(x):
+    if isinstance(x, str):
+        return [(True, x)]
+    return x.alts
+
+
+def _with_alts(x, alts):
+    if isinstance(x, XStr) and alts is not None and len(alts) <= 400:
+        x.alts = alts
+    return x
+
+
 def str_concat(a, b):
+    aa, ab = _alts_of(a), _alts_of(b)
     a, b = XStr.lift(a), XStr.lift(b)
-    return XStr(a.segs + b.segs).simplify()
+    r = XStr(a.segs + b.segs).simplify()
+    if aa is not None and ab is not None and len(aa) * len(ab) <= 400:
+        alts = []
+        for g1, s1 in aa:
+            for g2, s2 in ab:
+                g = b_and(g1, g2)
+                if g is not False:
+                    alts.append((g, s1 + s2))
+        _with_alts(r, alts)
+    return r
 
 
 def str_merge(c, a, b):
     """The string a if c else b."""
+    aa, ab = _alts_of(a), _alts_of(b)
     a, b = XStr.lift(a), XStr.lift(b)
-    return XStr(a.guarded_by(c).segs + b.guarded_by(z3.Not(c)).segs).simplify()
+    r = XStr(a.guarded_by(c).segs + b.guarded_by(z3.Not(c)).segs).simplify()
+    if aa is not None and ab is not None:
+        alts = []
+        for g, t in aa:
+            g2 = b_and(mk_bool(c), g)
+            if g2 is not False:
+                alts.append((g2, t))
+        for g, t in ab:
+            g2 = b_and(b_not(mk_bool(c)), g)
+            if g2 is not False:
+                alts.append((g2, t))
+        # join equal texts
+        by = {}
+        for g, t in alts:
+            by[t] = b_or(by[t], g) if t in by else g
+        _with_alts(r, [(g, t) for t, g in by.items()])
+    return r
+
+
+def alternatives(x):
+    """[(guard, literal)] if x is known to be one of finitely many literals, else None."""
+    if isinstance(x, str):
+        return [(True, x)]
+    return x.alts
 
 
 def str_join(it, sep, xs):
@@ -359,6 +439,9 @@ def _definitely_differs(x, lit):
 
 
 def str_eq(it, a, b):
+    aa, ab = _alts_of(a), _alts_of(b)
+    if aa is not None and ab is not None and not (isinstance(a, str) and isinstance(b, str)):
+        return b_or(*[b_and(g1, g2) for g1, s1 in aa for g2, s2 in ab if s1 == s2])
     a, b = XStr.lift(a), XStr.lift(b)
     sa, sb = a.simplify(), b.simplify()
     if isinstance(sa, str) and isinstance(sb, str):
